@@ -305,7 +305,7 @@ func c07Alphabet(x *c07Ctx) []c07Rej {
 	}
 	if x.w.curve == cert.Curve_CURVE25519 {
 		for _, h := range c07X25519LowOrder {
-			subE("x25519 low-order "+h[:8]+".."+h[56:], "e: low-order point", c07Hex(h))
+			subE("x25519 low-order "+h[:8]+".."+h[56:], "e: low-order / non-canonical point", c07Hex(h))
 		}
 		nine := make([]byte, 32)
 		nine[0] = 9
@@ -555,11 +555,6 @@ type c07Stats struct {
 
 func (st *c07Stats) note(w *c07World, role, class, outcome, stateKey string) {
 	st.mu.Lock()
-	if strings.HasPrefix(class, "crafted") && len(stateKey) > 0 && stateKey[0] == '@' {
-		st.classOut[role+"|"+stateKey+"|"+outcome]++
-		st.mu.Unlock()
-		return
-	}
 	st.outcomes[role+"|"+outcome]++
 	st.classOut[role+"|"+class+"|"+outcome]++
 	st.states[w.name()+"|"+role+"|"+stateKey] = struct{}{}
@@ -617,7 +612,6 @@ func c07RunMachineHistory(c *mc.Check, st *c07Stats, w *c07World, role string, h
 			rec.Outcome, rec.Err = "rejected, Failed()=true", err.Error()
 			steps = append(steps, rec)
 			st.note(w, role, r.class, "rejected-failed", "failed")
-			st.note(w, role, r.class, "rejected-failed", "@"+r.label)
 			if out != nil || res != nil {
 				c.Violation(fmt.Sprintf("Machine (%s) returns output or a Result together with an error", role), detail(nil))
 			}
@@ -651,7 +645,6 @@ func c07RunMachineHistory(c *mc.Check, st *c07Stats, w *c07World, role string, h
 				stateKey = "usable, transcript moved by: " + r.label
 			}
 			st.note(w, role, r.class, "rejected-usable", stateKey)
-			st.note(w, role, r.class, "rejected-usable:"+err.Error(), "@"+r.label)
 		}
 	}
 	// every rejected message left the handshake "usable": the genuine message must now complete it as if nothing happened
@@ -919,6 +912,7 @@ func TestVerifC07(t *testing.T) {
 	hmCiphers := mc.Pick(c, []string{"aes"}, []string{"aes", "chachapoly"})
 	var hmHist, hmKept, hmDeleted, hmAccepted, hmWedged int64
 	hmOutcomes := map[string]int64{}
+	hmWedgeKind := map[string]string{}
 	for _, cipher := range hmCiphers {
 		// undisturbed run, twice: premise + determinism of the assembly
 		base := func() string {
@@ -1031,16 +1025,27 @@ func TestVerifC07(t *testing.T) {
 				hmKept++
 				if final != b1 {
 					hmWedged++
-					kind := "other rejection [" + strings.Join(usableErrClass, " + ") + "]"
-					for _, cl := range usableErrClass {
+					// attribute to a message already known (from a single-message history) to wedge on its own
+					kind := ""
+					for i, cl := range usableErrClass {
+						if k, ok := hmWedgeKind[hist[i].label]; ok && len(hist) > 1 {
+							kind = k
+							break
+						}
 						if strings.Contains(cl, "cut after e") {
 							kind = "message cut after the ephemeral key"
 						} else if strings.Contains(cl, "low-order") || strings.Contains(cl, "invalid static") || strings.Contains(cl, "invalid point") {
 							kind = "invalid or low-order peer key"
 						}
 					}
+					if kind == "" {
+						kind = "other rejection [" + strings.Join(usableErrClass, " + ") + "]"
+					}
+					if len(hist) == 1 {
+						hmWedgeKind[hist[0].label] = kind
+					}
 					steps = append(steps, c07StepRec{Label: "genuine stage 2, then everything in flight", Outcome: final})
-					c.Violation("HandshakeManager: pending handshake stays alive (Machine not failed) after a rejected message but the genuine stage 2 no longer completes it: "+kind,
+					c.Violation("HandshakeManager: Machine still reports usable after a rejected message, yet the genuine stage 2 no longer completes the pending handshake: "+kind,
 						detail(map[string]any{"final": final, "undisturbed_final": b1}))
 				}
 			}
